@@ -6,7 +6,7 @@
 From Coq Require Import ZArith NArith List Bool.
 From NV Require Import Common.Outcome Lang.Types Lang.Types_proofs Lang.Pattern Lang.PatternSpec Lang.Store
   Lang.Pattern_proofs Lang.Pattern_proofs2 Lang.Pattern_proofs3 Lang.Store_proofs Lang.Pattern_inverts
-  Lang.Pattern_ops Lang.Convert Lang.Convert_proofs.
+  Lang.Pattern_ops Lang.Convert Lang.Convert_proofs Lang.Pattern_defaults.
 Import ListNotations.
 
 (* binding a value to a pattern never panics, whatever the pattern, value, mode and store:
@@ -122,6 +122,23 @@ Theorem C12_destructure_inverts : forall (inexact : iop -> num -> num -> num),
      exists i x, res = [i; x] /\ append i x = Ok (VList l)).
 Proof. exact destructure_inverts. Qed.
 Print Assumptions C12_destructure_inverts.
+
+(* ---- match_inverts for a sequence pattern WITH trailing defaults (declaring context; the items
+   themselves default-free): the supplied items may stop anywhere inside the defaulted tail, and
+   read backwards under the final bindings the pattern denotes the matched sequence EXTENDED by the
+   defaults that filled the missing trailing items - a default pattern is bound to its own default
+   exactly when no item was supplied for it *)
+Theorem C12_seq_defaults_inverts : forall (sat : N -> val -> outcome bool) (inexact : iop -> num -> num -> num)
+  f req ods dl t v s s',
+  forallb plain req = true -> forallb nodef req = true -> forallb nodef (map fst ods) = true ->
+  assign sat inexact (S (S f)) (PSeq (req ++ map mkdef ods) dl) (Some t) v s = (s', Ok tt) ->
+  exists es, elements v = Some es /\
+    (length req <= length es <= length req + length ods)%nat /\
+    forall s'', extends s' s'' ->
+      recon_items (recon inexact (S f) s'') (req ++ map mkdef ods)
+                  (es ++ skipn (length es - length req) (map snd ods)).
+Proof. exact seq_defaults_inverts. Qed.
+Print Assumptions C12_seq_defaults_inverts.
 
 (* ---- operator patterns, continued *)
 (* a comparison pattern (`1 < x < 9`, `a <= b`, `0 <= _ != 5`) matches iff the arity fits, there is
@@ -277,3 +294,21 @@ Example C12_nonvacuous_inverts :
     lookup s' 0%N = Some (TAny, vint 1) /\ lookup s' 1%N = Some (TAny, VList [vint 2; vint 3]) /\
     lookup s' 2%N = Some (TAny, VList [vint 1; vint 2; vint 3]).
 Proof. eexists. vm_compute. repeat split; reflexivity. Qed.
+
+(* the later theorems are not vacuous either *)
+Example C12_nonvacuous_more :
+  (* (a, (b = 7)) against [1]: b takes its default *)
+  assign_top sat_none inexact_nan (PSeq ([PVar 0] ++ map mkdef [(PVar 1, vint 7)]) false) (Some TAny) (VList [vint 1]) [] =
+    ([(1%N, (TAny, vint 7)); (0%N, (TAny, vint 1))], Ok tt) /\
+  (* x + 1/2 against 3: x = 5/2 *)
+  plus_inv inexact_nan (NInt 3) (NRat 1 2) = Ok (NRat 5 2) /\
+  (* (1/2) * x against 3: x = 6 (as a rational) *)
+  times_inv inexact_nan (NInt 3) (NRat 1 2) = Ok (NRat 6 1) /\
+  (* 1 < x < 9 against 5 and against 9 *)
+  destructure inexact_nan (BCmp CLt [CLt]) (vint 5) [Some (vint 1); None; Some (vint 9)] = Ok [vint 1; vint 5; vint 9] /\
+  destructure inexact_nan (BCmp CLt [CLt]) (vint 9) [Some (vint 1); None; Some (vint 9)] = Err EValue /\
+  (* int(7/2) = 3, vector([1, 2]) = V(1, 2), Bar(5) *)
+  convert fields_std TInt (VNum (NRat 7 2)) = Some (Ok (vint 3)) /\
+  convert fields_std TVector (VList [vint 1; vint 2]) = Some (Ok (VVec [NInt 1; NInt 2])) /\
+  convert fields_std (TStruct 1) (vint 5) = Some (Ok (VInst 1 [vint 5])).
+Proof. repeat split; vm_compute; reflexivity. Qed.
